@@ -664,6 +664,20 @@ def m_read(c):
             dloc = c.I.resolve(s1, c.frame, c.term["dest"])
             if dloc is not None and l is not None:
                 s1.add_le(LinForm.var((dloc[0], dloc[1] + (("v", 0), 0))) - l)
+            g = c.I.opt.get("ghost_received")
+            if g is not None and dloc is not None and g[0] in s1.cells:
+                # ghost counter of bytes received from the source:  g := g + n   (invertible: old g = new g - n)
+                nv = (dloc[0], dloc[1] + (("v", 0), 0))
+                repl = LinForm.var(g) - LinForm.var(nv)
+                from lin import Cons
+                nc = Cons()
+                for x in s1.cons.le:
+                    nc.add_le(x.subst(g, repl) if g in x.terms else x)
+                for x in s1.cons.eq:
+                    nc.add_eq(x.subst(g, repl) if g in x.terms else x)
+                s1.cons = nc
+                for gk, fs in list(s1.guards.items()):
+                    s1.guards[gk] = type(fs)((f[0], f[1].subst(g, repl)) + tuple(f[2:]) if f[0] in ("le", "eq") and g in f[1].terms else f for f in fs)
         except Infeasible:
             pass
 
